@@ -201,6 +201,19 @@ func (r *R) State(ctx sdk.Context) string {
 	return fmt.Sprintf("h=%d q=%s r=%s o=%s%s", ctx.BlockHeight(), dash(strings.Join(qs, ",")), dash(strings.Join(rs, ",")), dash(strings.Join(os, ",")), bad)
 }
 
+// GenesisState renders what must survive an export/import round trip: the pending request queue
+// (every field of every entry, oracle-flagged entries included). Generated randoms (prefix 0x01)
+// and oracle requests already handed to the service module (prefix 0x03) are not part of the
+// module's genesis format.
+func (r *R) GenesisState(ctx sdk.Context) string {
+	var qs []string
+	for _, e := range r.queue(ctx) {
+		qs = append(qs, fmt.Sprintf("%d/%s:%s", e.h, hex.EncodeToString(e.id), showReq(e.req)))
+	}
+	sort.Strings(qs)
+	return "q=" + dash(strings.Join(qs, ","))
+}
+
 func (r *R) consumer(sym string) string {
 	if strings.HasPrefix(sym, "A") {
 		if i, err := strconv.Atoi(sym[1:]); err == nil {
